@@ -488,7 +488,9 @@ pub fn run(id: &str, tier: Tier) -> i32 {
         let _ = mon_handle.join();
     });
     let mut stats = std::mem::take(&mut *sh.stats.lock().unwrap());
-    let crashes = std::mem::take(&mut *sh.crashes.lock().unwrap());
+    let mut crashes = std::mem::take(&mut *sh.crashes.lock().unwrap());
+    // arrival order depends on scheduling: report the examples deterministically (shortest, then smallest key)
+    crashes.sort_by(|a, b| (a.key.len(), a.key.as_str()).cmp(&(b.key.len(), b.key.as_str())));
     let mut fatal = std::mem::take(&mut *sh.fatal.lock().unwrap());
     fatal.extend(stats.machinery_errors.iter().cloned());
     let units_done = *sh.units_done.lock().unwrap();
